@@ -17,6 +17,7 @@ def ea_obligations(tier, mmf, prefix):
 def eq_obligations(tier, mmf, prefix):
     T = tier == "thorough"
     mr = 6 if T else 4
+    if mmf: mr = 3 if T else 2   # with failing allocators the success/failure merges make each shape far more expensive
     obs = []
     for ent, nm, what in (("h_q_add", "elasticqueue-add", "elasticqueue_add: length+1, existing records unchanged, new record last, out-of-range get NULL"),
                           ("h_q_delete", "elasticqueue-delete", "elasticqueue_delete: FIFO -- record i becomes old record i+1, across the move-to-front and the shrink; never fails"),
